@@ -26,10 +26,56 @@ type c01Net struct {
 	nodes  []*c02Harness // correct validators
 	faulty []int         // validator indices of the faulty ones
 	pool   []msgInfo
+	inbox  map[*c02Harness][]msgInfo // per node: messages not yet delivered (gossip keeps them until usable)
 	kinds  map[string]int
 }
 
-func (n *c01Net) publish(mi msgInfo) { n.pool = append(n.pool, mi) }
+// publish puts a message into the pool and into every other node's inbox
+func (n *c01Net) publish(from *c02Harness, mi msgInfo) {
+	n.pool = append(n.pool, mi)
+	for _, h := range n.nodes {
+		if h != from {
+			n.inbox[h] = append(n.inbox[h], mi)
+		}
+	}
+}
+
+// gossip sends a proposal and its parts to a peer only once the peer is in that round, and
+// nothing of a later height
+func c01Usable(mi msgInfo, height int64, round int32) bool {
+	mh := c01Height(mi)
+	if mh != height {
+		return mh < height
+	}
+	switch m := mi.Msg.(type) {
+	case *ProposalMessage:
+		return m.Proposal.Round <= round
+	case *BlockPartMessage:
+		return m.Round <= round
+	}
+	return true
+}
+
+// publishTo puts a message into the inbox of the given nodes only (a faulty sender may tell
+// different things to different nodes)
+func (n *c01Net) publishTo(targets []*c02Harness, mi msgInfo) {
+	n.pool = append(n.pool, mi)
+	for _, h := range targets {
+		n.inbox[h] = append(n.inbox[h], mi)
+	}
+}
+
+func c01Height(mi msgInfo) int64 {
+	switch m := mi.Msg.(type) {
+	case *VoteMessage:
+		return m.Vote.Height
+	case *ProposalMessage:
+		return m.Proposal.Height
+	case *BlockPartMessage:
+		return m.Height
+	}
+	return 0
+}
 
 func (n *c01Net) totalSteps() int {
 	t := 0
@@ -51,7 +97,7 @@ func c01Run(r *vg.Rand, k int) (term string, descr string, nontrivial bool, deci
 	state, pvs := c02Genesis(r, nv, powers)
 	total := state.Validators.TotalVotingPower()
 	// choose faulty validators with strictly less than one third of the power
-	net := &c01Net{kinds: map[string]int{}}
+	net := &c01Net{kinds: map[string]int{}, inbox: map[*c02Harness][]msgInfo{}}
 	var fpow int64
 	for _, i := range r.Perm(nv) {
 		p := state.Validators.Validators[i].VotingPower
@@ -74,7 +120,8 @@ func c01Run(r *vg.Rand, k int) (term string, descr string, nontrivial bool, deci
 		if shared == nil {
 			shared = h
 		}
-		h.onOwn = net.publish
+		hh := h
+		h.onOwn = func(mi msgInfo) { net.publish(hh, mi) }
 		h.hardCap = 100000
 		net.nodes = append(net.nodes, h)
 	}
@@ -86,7 +133,45 @@ func c01Run(r *vg.Rand, k int) (term string, descr string, nontrivial bool, deci
 		}
 		f := net.faulty[r.Intn(len(net.faulty))]
 		cs := h.cs
-		switch r.Intn(5) {
+		switch r.Intn(8) {
+		case 5, 6, 7: // split brain: tell one half of the nodes A and the other half B
+			c := h.candidates(r)
+			if len(c) < 2 {
+				return
+			}
+			a, b := c[0], c[1]
+			var g1, g2 []*c02Harness
+			for _, nd := range net.nodes {
+				if r.Bool() {
+					g1 = append(g1, nd)
+				} else {
+					g2 = append(g2, nd)
+				}
+			}
+			round := cs.Round
+			for gi, grp := range [][]*c02Harness{g1, g2} {
+				e := a
+				if gi == 1 {
+					e = b
+				}
+				bid := types.BlockID{Hash: e.block.Hash(), PartSetHeader: e.parts.Header()}
+				h.ensureProposers()
+				if int(h.props[cs.Height][int(round)%24]) == f { // the faulty validator is the proposer
+					p := types.NewProposal(cs.Height, round, -1, bid)
+					pp := p.ToProto()
+					pvs[f].SignProposal(cs.state.ChainID, pp) //nolint:errcheck
+					p.Signature = pp.Signature
+					net.publishTo(grp, msgInfo{&ProposalMessage{p}, "p9"})
+					for i := 0; i < int(e.parts.Total()); i++ {
+						net.publishTo(grp, msgInfo{&BlockPartMessage{cs.Height, round, e.parts.GetPart(i)}, "p9"})
+					}
+				}
+				for _, ff := range net.faulty {
+					net.publishTo(grp, msgInfo{&VoteMessage{h.mkVote(r, ff, tmproto.PrevoteType, cs.Height, round, bid)}, "p9"})
+					net.publishTo(grp, msgInfo{&VoteMessage{h.mkVote(r, ff, tmproto.PrecommitType, cs.Height, round, bid)}, "p9"})
+				}
+			}
+			net.kinds["byz/split-brain"]++
 		case 0, 1, 2: // a vote for anything, for a round near the target's
 			ty := tmproto.PrevoteType
 			if r.Bool() {
@@ -97,7 +182,7 @@ func c01Run(r *vg.Rand, k int) (term string, descr string, nontrivial bool, deci
 				round = 0
 			}
 			v := h.mkVote(r, f, ty, cs.Height, round, h.pickBlockID(r))
-			net.publish(msgInfo{&VoteMessage{v}, "p9"})
+			net.publish(nil, msgInfo{&VoteMessage{v}, "p9"})
 			net.kinds["byz/vote"]++
 		case 3: // a proposal (if the faulty validator is the proposer it can equivocate)
 			c := h.candidates(r)
@@ -109,16 +194,16 @@ func c01Run(r *vg.Rand, k int) (term string, descr string, nontrivial bool, deci
 			pp := p.ToProto()
 			pvs[f].SignProposal(cs.state.ChainID, pp) //nolint:errcheck
 			p.Signature = pp.Signature
-			net.publish(msgInfo{&ProposalMessage{p}, "p9"})
+			net.publish(nil, msgInfo{&ProposalMessage{p}, "p9"})
 			for i := 0; i < int(e.parts.Total()); i++ {
-				net.publish(msgInfo{&BlockPartMessage{cs.Height, cs.Round, e.parts.GetPart(i)}, "p9"})
+				net.publish(nil, msgInfo{&BlockPartMessage{cs.Height, cs.Round, e.parts.GetPart(i)}, "p9"})
 			}
 			net.kinds["byz/proposal"]++
 		default: // the same vote type/round for two different values, to different halves later
 			v1 := h.mkVote(r, f, tmproto.PrevoteType, cs.Height, cs.Round, h.pickBlockID(r))
 			v2 := h.mkVote(r, f, tmproto.PrevoteType, cs.Height, cs.Round, types.BlockID{})
-			net.publish(msgInfo{&VoteMessage{v1}, "p9"})
-			net.publish(msgInfo{&VoteMessage{v2}, "p9"})
+			net.publish(nil, msgInfo{&VoteMessage{v1}, "p9"})
+			net.publish(nil, msgInfo{&VoteMessage{v2}, "p9"})
 			net.kinds["byz/equivocation"]++
 		}
 	}
@@ -126,7 +211,6 @@ func c01Run(r *vg.Rand, k int) (term string, descr string, nontrivial bool, deci
 		t, d := h.inputTerm(mi)
 		h.deliver(t, d, func() { h.cs.handleMsg(mi) })
 	}
-	cursor := map[*c02Harness]int{}
 	lossPct := []int{0, 0, 3, 10, 25}[r.Intn(5)]
 	earlyTimeoutPct := []int{0, 0, 1, 3, 8}[r.Intn(5)] // timeouts firing although messages are in flight
 	byzPct := []int{1, 3, 6}[r.Intn(3)]
@@ -144,8 +228,15 @@ func c01Run(r *vg.Rand, k int) (term string, descr string, nontrivial bool, deci
 		if h.panicked {
 			continue
 		}
-		cur := cursor[h]
-		behind := cur < len(net.pool)
+		// the first inbox message the node can use now (gossip holds back what is for later heights)
+		usable := -1
+		for i, mi := range net.inbox[h] {
+			if c01Usable(mi, h.cs.Height, h.cs.Round) {
+				usable = i
+				break
+			}
+		}
+		behind := usable >= 0
 		x := r.Intn(100)
 		var action string
 		switch {
@@ -184,13 +275,14 @@ func c01Run(r *vg.Rand, k int) (term string, descr string, nontrivial bool, deci
 			}
 			deliver(h, net.pool[r.Intn(len(net.pool))])
 			net.kinds["deliver/any"]++
-		default: // the next message of the pool for this node (in pool order), sometimes lost
-			cursor[h] = cur + 1
+		default: // the next usable message for this node, sometimes lost
+			mi := net.inbox[h][usable]
+			net.inbox[h] = append(net.inbox[h][:usable:usable], net.inbox[h][usable+1:]...)
 			if r.Chance(lossPct) {
 				net.kinds["lost"]++
 				continue
 			}
-			deliver(h, net.pool[cur])
+			deliver(h, mi)
 			net.kinds["deliver/next"]++
 		}
 	}
@@ -224,7 +316,7 @@ func c01Run(r *vg.Rand, k int) (term string, descr string, nontrivial bool, deci
 		if h.panicked {
 			panics++
 		}
-		fmt.Fprintf(&d, " node %d (%d inputs, %d heights decided, final %d/%d/%d, cursor %d of %d):", h.me, len(h.steps), h.decided, h.cs.Height, h.cs.Round, h.cs.Step, cursor[h], len(net.pool))
+		fmt.Fprintf(&d, " node %d (%d inputs, %d heights decided, final %d/%d/%d, inbox %d, pool %d):", h.me, len(h.steps), h.decided, h.cs.Height, h.cs.Round, h.cs.Step, len(net.inbox[h]), len(net.pool))
 		for i, s := range h.descr {
 			if len(h.descr) > 60 && i >= 30 && i < len(h.descr)-30 {
 				if i == 30 {
